@@ -13,7 +13,7 @@ ASSUMPTIONS = ["key_expired and allocation failure after authentication are not 
 
 
 def scenario(rng, k, tier):
-    wildcard = rng.random() < 0.5 if k % 3 else (k % 6 == 0)
+    wildcard = (rng.random() < 0.5 if k % 3 == 2 else False) if k % 3 else (k % 6 == 0)      # k mod 3 = 1: explicit streams with a set_roc jump (below)
     ssrcs = [rng.randrange(2, 1 << 32) for _ in range(3)]
     p = rand_policy(rng, ssrc=ssrcs[0], valid=True, allow_cryptex=False)
     if k % 3 == 0 and not p.enc_xtn:
@@ -43,7 +43,7 @@ def scenario(rng, k, tier):
         for s in ssrcs:
             L.append(f"peek 2 0 {H(s)}")
         L.append("peek 2 1 0"); L.append("nstreams 2"); L.append("heap"); L.append(f"# S {tag} {len(ssrcs)+3:x}")
-    roc_jump_at = rng.choice([2, 4, 7]) if rng.random() < 0.6 else -1
+    roc_jump_at = rng.choice([2, 4, 7]) if (rng.random() < 0.6 or k % 3 == 1) else -1
     force = None
     for step in range(12 if tier == "quick" else 60):
         s = rng.choice(ssrcs)
